@@ -87,3 +87,142 @@ def classify(fx, f, header, body):
         if d0 and d0[1] == "T":
             kinds.add("call-test:" + (d0[2][1].get("d", "?").split("::")[-1]))
     return kinds
+
+
+# ------------------------------------------------------------------ parser / lexer progress (C05)
+TOKEN_PRESENT = re.compile(r"::(check|match_token|check_keyword|match_keyword|check_identifier|check_contextual|is_[a-z_]*start|peek_is|check_any|match_any|is_ascii_[a-z]+|is_id_continue_char|is_id_start_char|is_digit|is_alphanumeric|is_whitespace|is_ascii_digit|is_ascii_hexdigit)$")
+AT_END = re.compile(r"::(is_at_end|is_eof|at_end)$")
+OPTION_SRC = re.compile(r"::(peek|peek_char|peek_next|current_char|advance|next_char|next|peek_at|peek_ahead|get|chars|pop)$")
+
+
+def _bool_switch(f, b):
+    """(callee, true_target, false_target) if block b switches on the boolean result of a call
+    (possibly negated) made in a predecessor chain within the same straight line"""
+    t = f.blocks[b]["t"]
+    if t[0] != "switch" or t[1][0] not in ("c", "m"):
+        return None
+    cur = t[1][1][0]
+    neg = False
+    for s in reversed(f.blocks[b]["s"]):
+        if s[0] == "a" and s[1][0] == cur and not s[1][1] and s[2][0] == "un" and s[2][1] == "Not" and s[2][2][0] in ("c", "m"):
+            cur = s[2][2][1][0]
+            neg = not neg
+    d0 = M.trace_back(f, cur)
+    if not d0 or d0[1] != "T":
+        return None
+    false_t = next((x for v, x in t[2] if v == "0"), None)
+    if false_t is None:
+        return None
+    true_t = t[3]
+    if neg:
+        true_t, false_t = false_t, true_t
+    return d0[2][1].get("d", ""), true_t, false_t
+
+
+def _self_state_place(f, pl, depth=0):
+    """does the place read the parser/lexer's own state (a field of `self`, possibly through refs)?"""
+    if pl[0] == 1 and any(isinstance(e, list) and e[0] == "f" for e in pl[1]):
+        return True
+    if depth > 4:
+        return False
+    d0 = M.trace_back(f, pl[0])
+    if d0 and d0[1] != "T":
+        rv = d0[2]
+        if rv[0] == "ref":
+            return _self_state_place(f, rv[2], depth + 1)
+        if rv[0] == "use" and rv[1][0] in ("c", "m"):
+            return _self_state_place(f, rv[1][1], depth + 1)
+    if d0 and d0[1] == "T":
+        t = d0[2]
+        name = t[1].get("d", "")
+        if name.endswith(("clone::Clone>::clone", "cheap_clone", "::clone")) and t[2] and t[2][0][0] in ("c", "m"):
+            return _self_state_place(f, t[2][0][1], depth + 1)
+    return False
+
+
+def is_query_switch(f, b):
+    """block b switches on a query of the input state: a call result (bool, or discriminant /
+    comparison of a returned Option/Result/char) or a read of the parser/lexer's own fields"""
+    t = f.blocks[b]["t"]
+    if t[0] != "switch" or t[1][0] not in ("c", "m"):
+        return False
+    if _bool_switch(f, b):
+        return True
+    cl = t[1][1][0]
+    for st in f.blocks[b]["s"]:
+        if st[0] == "a" and st[1][0] == cl and st[2][0] in ("disc", "bin", "use"):
+            for pl in F.rvalue_places(st[2]):
+                if _self_state_place(f, pl):
+                    return True
+                d0 = M.trace_back(f, pl[0])
+                if d0 and d0[1] == "T":
+                    return True
+                if d0 and d0[1] != "T" and d0[2][0] == "use" and d0[2][1][0] in ("c", "m"):
+                    d1 = M.trace_back(f, d0[2][1][1][0])
+                    if (d1 and d1[1] == "T") or d0[2][1][1][1]:
+                        return True
+    return False
+
+
+def unguarded_cycle(fx, f, header, body):
+    """True if the loop has a cycle on which no exit test depends on a *query of the input state*.
+    gate  = a block inside the loop, with a successor outside it, whose switch is a query (see
+            is_query_switch), an iterator/counter test, or a `matches!`-style merge of constants that is
+            control dependent on a query inside the loop;
+    progress edge = the *true* edge of a token-present test (check / match_token / char class) or the
+            *false* edge of is_at_end(): a real token is there to be consumed.
+    A cycle that passes no gate and no progress edge can only be left through tests on local flags
+    and counters: at end of input (where advance() no longer consumes) it spins forever."""
+    kinds = classify(fx, f, header, body)
+    queries = {b for b in body if is_query_switch(f, b)}
+    gates = set()
+    for b in body:
+        if not any(s not in body for s in f.succ(b)):
+            continue
+        t = f.blocks[b]["t"]
+        if t[0] == "call":
+            gates.add(b)
+            continue
+        if t[0] != "switch":
+            continue
+        if b in queries or (kinds & {"iterator", "counter"}):
+            gates.add(b)
+            continue
+        if t[1][0] in ("c", "m") and not t[1][1][1]:
+            defs = f.defs().get(t[1][1][0], [])
+            if len(defs) >= 2 and all(si != "T" and rv[0] == "use" and rv[1][0] == "k" for (db, si, rv) in defs):
+                for c in queries:
+                    if f.dominates(c, b) and all(f.dominates(c, db) for (db, si, rv) in defs):
+                        gates.add(b)
+                        break
+    progress = set()
+    for b in body:
+        bs = _bool_switch(f, b)
+        if bs:
+            d, tt, ft = bs
+            if TOKEN_PRESENT.search(d):
+                progress.add((b, tt))
+            elif AT_END.search(d):
+                progress.add((b, ft))
+    # matching the current token's kind against specific variants: entering an arm other than the
+    # catch-all (and other than Eof) means that token is there to be consumed
+    for sb, en, place, arms, other, rest in M.enum_switches(fx, f):
+        if sb in body and en.endswith("TokenKind") and _self_state_place(f, place):
+            for var, tgt in arms.items():
+                if var not in ("Eof", "EOF") and tgt != other:
+                    progress.add((sb, tgt))
+    if header in gates:
+        return False
+    seen = set()
+    work = [s for s in f.succ(header) if s in body and s not in gates and (header, s) not in progress]
+    while work:
+        x = work.pop()
+        if x == header:
+            return True
+        if x in seen:
+            continue
+        seen.add(x)
+        for s in f.succ(x):
+            if s in body and s not in gates and (x, s) not in progress:
+                work.append(s)
+    return False
